@@ -234,6 +234,29 @@ Fixpoint strip_trailing (l : list nat) : list nat :=
   end.
 Definition label_token (prefix name : list nat) (width : nat) : list nat := strip_trailing (label_text prefix name width).
 
+(* the prefix of every kind of column and the number of characters its name is padded/cut to, as written by the
+   write_traj_label functions (cv_width = en_width = 21; a scalar variable) *)
+Definition col_prefix (c : col) : list nat :=
+  match c with
+  | CVal _ => [] | CExt _ => [114; 95]%nat (* r_ *) | CVel _ => [118; 95]%nat (* v_ *) | CVelExt _ => [118; 114; 95]%nat (* vr_ *)
+  | CEp _ => [69; 112; 95]%nat (* Ep_ *) | CEk _ => [69; 107; 95]%nat (* Ek_ *) | CFt _ => [102; 116; 95]%nat (* ft_ *)
+  | CFa _ => [102; 97; 95]%nat (* fa_ *) | CBiasE _ => [69; 95]%nat (* E_ *) | CCenter _ _ => [120; 48; 95]%nat (* x0_ *)
+  | CWork _ => [87; 95]%nat (* W_ *) | CRef _ _ => [114; 101; 102; 95]%nat (* ref_ *)
+  | CCoupling _ _ => [70; 111; 114; 99; 101; 67; 111; 110; 115; 116; 95]%nat (* ForceConst_ *)
+  | CGrad _ _ => [71; 114; 97; 100; 95]%nat (* Grad_ *)
+  end.
+(* which object's name follows the prefix: a variable (inl) or a bias (inr); the alb coupling column is followed by
+   the index of the variable in the bias instead *)
+Definition col_object (c : col) : Z + Z :=
+  match c with
+  | CVal v | CExt v | CVel v | CVelExt v | CEp v | CEk v | CFt v | CFa v => inl v
+  | CCenter _ v | CRef _ v | CGrad _ v | CCoupling _ v => inl v
+  | CBiasE b | CWork b => inr b
+  end.
+(* the text of a label: prefix ++ wrap_string(name, 21 - length prefix) *)
+Definition col_label (vname bname : Z -> list nat) (c : col) : list nat :=
+  label_token (col_prefix c) (match col_object c with inl v => vname v | inr b => bname b end) 21%nat.
+
 (* ---- which other files a step writes (colvarmodule::calc, colvarproxy::post_run) ------------------ *)
 (* FState: the state file (its `step` field is the step at which it is written); FColvar: the output files of the
    variables (correlation functions); FBias b: the output files of bias b (histograms, PMFs, ...). The output
@@ -299,6 +322,31 @@ Fixpoint flush_run {R} (file buf : list R) (evs : list (fevent R)) : list R * li
 Definition records_of {R} (evs : list (fevent R)) : list R :=
   flat_map (fun e => match e with FRec r => [r] | FFlush => [] end) evs.
 
+(* ---- what is on disk: the trajectory stream is buffered ------------------------------------------- *)
+(* Lines go to a stream buffer; colvarmodule::write_traj_files synchronises it with the disk at the end of a calc()
+   whose step is a multiple of the restart frequency (no condition on step_relative); the C++ stream may also spill
+   any prefix of its buffer to the disk at any time (when it fills up). *)
+Inductive bevent (L : Type) := BLine (l : L) | BSync | BSpill (n : nat).
+Arguments BLine {L}. Arguments BSync {L}. Arguments BSpill {L}.
+Fixpoint buf_run {L} (disk buf : list L) (evs : list (bevent L)) : list L * list L :=
+  match evs with
+  | [] => (disk, buf)
+  | BLine l :: e => buf_run disk (buf ++ [l]) e
+  | BSync :: e => buf_run (disk ++ buf) [] e
+  | BSpill n :: e => buf_run (disk ++ firstn n buf) (skipn n buf) e
+  end.
+Definition blines {L} (evs : list (bevent L)) : list L :=
+  flat_map (fun e => match e with BLine l => [l] | _ => [] end) evs.
+(* the stream events of one calc(): its lines, then the synchronisation if the step is on the restart grid *)
+Definition traj_calc_bevents (rfreq : Z) (s : tstate) (it : Z) : tstate * list (bevent tline) :=
+  let '(s1, ls) := traj_calc s it in
+  (s1, map BLine ls ++ (if negb (rfreq =? 0) && (it mod rfreq =? 0) then [BSync] else [])).
+Fixpoint traj_bevents (rfreq : Z) (s : tstate) (its : list Z) : list (bevent tline) :=
+  match its with
+  | [] => []
+  | it :: r => let '(s1, be) := traj_calc_bevents rfreq s it in be ++ traj_bevents rfreq s1 r
+  end.
+
 Local Close Scope Z_scope.
 
 (* =================================================================================================
@@ -321,6 +369,29 @@ Section Analysis.
 
   Definition ofnat (n : nat) : T := nofZ O (Z.of_nat n).
   Definition sumT (l : list T) (a : T) : T := fold_left (nadd O) l a.
+
+  (* ---- multicolumn grid files (colvar_grid<T>::write_multicol) ----------------------------------- *)
+  (* indices in the order of colvar_grid::incr: row-major, last index fastest *)
+  Fixpoint all_indices (nx : list nat) : list (list nat) :=
+    match nx with
+    | [] => [[]]
+    | n :: r => flat_map (fun i => map (cons i) (all_indices r)) (seq 0 n)
+    end.
+  Inductive mline := MBlank | MData (coords : list T) (vals : list T).
+  (* bin_to_value_scalar: lower + width * (0.5 + i) *)
+  Definition bin_center (lower width : T) (i : nat) : T := nadd O lower (nmul O width (nadd O (nhalf O) (ofnat i))).
+  Fixpoint coords_of (geom : list (T * T)) (ix : list nat) : list T :=
+    match geom, ix with
+    | (l, w) :: g, i :: r => bin_center l w i :: coords_of g r
+    | _, _ => []
+    end.
+  (* a blank line before every record whose last index is 0, then the bin centres and the mult values of the record *)
+  Definition write_multicol (nx : list nat) (geom : list (T * T)) (value : list nat -> list T) : list mline :=
+    flat_map (fun ix => (if (last ix 1 =? 0)%nat then [MBlank] else []) ++ [MData (coords_of geom ix) (value ix)])
+             (all_indices nx).
+  (* reading back: blank lines are separators only; the k-th record belongs to the k-th index *)
+  Definition read_multicol (nx : list nat) (ls : list mline) : list (list nat * list T) :=
+    combine (all_indices nx) (flat_map (fun l => match l with MData _ v => [v] | MBlank => [] end) ls).
 
   (* ---- B. velocity by finite differences ------------------------------------------------------ *)
   Record vstate := mkVS { vs_xold : T; vs_vfdiff : T; vs_vrep : T }.
@@ -345,6 +416,27 @@ Section Analysis.
     | [] => []
     | (t, x) :: r => let s1 := vel_step dt s prev t x in vs_vrep s1 :: vel_run dt s1 (Some t) r
     end.
+
+  (* ---- B'. total force of a scalar variable when the engine delivers forces one evaluation late --------
+     Engine convention (total_forces_same_step() = false, e.g. NAMD; harness/vsim.h): at each evaluation the engine
+     hands over the force that was exerted at its previous evaluation.  Colvars (colvar::collect_cvc_data /
+     lagged_total_force_available / collect_cvc_total_forces / end_of_step): the delivered force is collected only if
+     step_relative > 0, the variable was computed at the previous step (or this same step, repeated) and its total-force
+     calculation was enabled then; otherwise ft keeps its value.  One-component variable, zero Jacobian term. *)
+  Record lfstate := mkLF {
+    lf_ft : T;                    (* colvar::ft (what the ft_ column prints) *)
+    lf_prev : option nat;         (* colvar::prev_timestep *)
+    lf_prev_calc : bool;          (* colvar::prev_total_force_calc *)
+    lf_engine : T }.              (* engine side: the force exerted at the previous evaluation *)
+  Definition lf0 : lfstate := mkLF (n0 O) None false (n0 O).
+  Definition lf_available (s : lfstate) (rel : nat) : bool :=
+    (0 <? rel)%nat && (match lf_prev s with Some p => (rel - 1 <=? p)%nat | None => false end) && lf_prev_calc s.
+  (* one evaluation: rel = step_relative, enabled = total-force calculation requested now, f = force exerted now *)
+  Definition lf_step (s : lfstate) (ev : nat * bool * T) : lfstate :=
+    let '(rel, enabled, f) := ev in
+    let delivered := lf_engine s in
+    mkLF (if lf_available s rel && enabled then delivered else lf_ft s) (Some rel) enabled f.
+  Definition lf_run (s : lfstate) (h : list (nat * bool * T)) : lfstate := fold_left lf_step h s.
 
   (* ---- C. running average --------------------------------------------------------------------- *)
   Record rstate := mkRS { r_init : bool; r_hist : list T }.
